@@ -1,7 +1,7 @@
 (* C10 — store-rewriting commands never break a passing store; init/regenerate
    exemptions make one. *)
 Require Import Base Extracted Criteria Search AuditGraph DepGraph Resolve Update Commands.
-Require Import SearchProofs ResolveProofs ResolveTheorems UpdateProofs UpdateKeep EndToEnd SuggestProofs SuggestHeal CertifyProofs Witness.
+Require Import SearchProofs ResolveProofs ResolveTheorems UpdateProofs UpdateKeep EndToEnd SuggestProofs SuggestHeal CertifyProofs TrustProofs ImportCmdProofs UserCommands Witness.
 Local Open Scope N_scope.
 
 (* In RegenerateExemptions mode (init, regenerate exemptions) the search for a
@@ -80,6 +80,26 @@ Example C10_certify_nonvacuous :
   length (ps_local (store_for (cmd_certify 0 a w_graph w_store) 0)) = 3%nat.
 Proof. vm_compute. auto. Qed.
 
+(* `trust` as a whole — the trusted entry the user asked for is appended (or an existing entry of the same publisher
+   and criteria is widened), then the targeted clean-up runs: a passing store stays passing (a trusted entry
+   cannot collide with a violation entry, and widening a window keeps every grant) *)
+Theorem C10_trust_preserves_vetting : forall inp s target uid st en request hn,
+  store_ok inp s -> vets inp s -> vets inp (cmd_trust target uid st en request hn inp s).
+Proof. exact trust_preserves_vetting. Qed.
+Example C10_trust_nonvacuous :
+  has_errors (resolve w_graph (cmd_trust 1 7 100 300 [0] false w_graph w_store)) = false /\
+  length (ps_trusted (store_for (cmd_trust 1 7 100 300 [0] false w_graph w_store) 1)) = 1%nat.
+Proof. vm_compute. auto. Qed.
+
+(* `import` as a whole — the new peer's (localised) entries become one more imported list of every crate, then the
+   import clean-up runs: a passing store stays passing unless the peer's entries bring or meet a violation *)
+Theorem C10_import_preserves_vetting : forall inp s pa pw,
+  store_ok inp s -> vets inp s ->
+  (forall i p, pkg_at inp s i p -> pk_third_party p = true ->
+     violation_conflicts (st_criteria s) (store_for (add_peer s pa pw) (pk_name p)) = []) ->
+  vets inp (cmd_import pa pw inp s).
+Proof. exact import_preserves_vetting. Qed.
+
 Theorem C10_update_preserves_vetting : forall inp s mode,
   store_ok inp s -> (forall name, um_search (mode name) <> RegenerateExemptions) ->
   vets inp s -> vets inp (update_store inp s mode).
@@ -108,4 +128,6 @@ Print Assumptions C10_trust_cleanup_preserves.
 Print Assumptions C10_import_cleanup_preserves.
 Print Assumptions C10_update_preserves_vetting.
 Print Assumptions C10_certify_preserves_vetting.
+Print Assumptions C10_trust_preserves_vetting.
+Print Assumptions C10_import_preserves_vetting.
 Print Assumptions C10_init_and_regenerate_certify.
